@@ -1,18 +1,27 @@
 (* C01, composed: reading the BYTES of a serialised file returns exactly the
    values its raw data blocks encode, concatenated in file order, per channel.
 
-   Layers composed here (all proved elsewhere, none re-assumed):
-     FileSynProofs.rd_metadata_ser    bytes -> syntax for the metadata pass
-     LayoutProofs.*_segment_roundtrip raw data decoders invert the encoders
+   Layers composed here (proved elsewhere, none re-assumed):
+     FileSynProofs.rd_metadata_ser      bytes -> syntax for the metadata pass
+     LayoutProofs.*_segment_roundtrip   raw data decoders invert the encoders
+     LayoutProofs.calculate_chunks_exact
+     SegStateInherit (existing_lookup_some, update_object_metadata_values, ...)
    and added here:
-     R1 sm_run_trace / sm_segment_positions   positions, chunk counts, value
-                                              counts, key uniqueness, version
-     R2 read_segment_ser                      tag check + cursor position
-     R3 seg_encodes / seg_encodes_read        one predicate for both layouts
-     R4 receive_chunks_concat                 receivers concatenate
-     R5 rd_eager_ser                          the eager data pass
-     R6 read_correct                          rd_all = the expected observation
-   See Props/C01_read.v for the statements and what is not covered. *)
+     R1 sm_loop_trace / sm_run_trace / sm_segment_positions(_nth)
+          positions, chunk counts, per-path value counts (om_len), distinct
+          metadata keys, typed objects stay typed, version
+     R2 read_segment_ser          tag check + cursor position
+     R3 seg_encodes / seg_encodes_read / read_segment_encoded
+     R4 receive_chunks_concat     receivers concatenate
+     R5 rd_eager_ser              the eager data pass
+     R6 read_correct_given_lengths -> read_correct_given_channels ->
+        read_correct_given_no_daqmx -> read_correct (-> read_correct_tokens)
+          each step discharges hypotheses of the previous one:
+          lengths_consistent_ser, channel_paths_distinct_ser,
+          data_paths_are_channels_ser, no_daqmx_channels_ser
+   plus sound boolean checks (..._b, ..._b_sound) for the hypotheses about the
+   hierarchy / metadata, and a concrete two-segment instance (RcExample).
+   See Props/C01_read.v for the statements and for what is not covered. *)
 From Coq Require Import List ZArith Bool Lia ZifyBool.
 From Coq Require Import Init.Byte.
 Import ListNotations.
@@ -172,6 +181,74 @@ Proof.
   cbn [fold_left fst snd]. apply IH. apply aset_keys_nodup. exact Hnd.
 Qed.
 
+(* ---- typed objects: once a path has a data type in the metadata, it keeps it ---- *)
+
+Definition om_typed (p : bytes) (om : alist ometa) : Prop :=
+  exists m, alookup p om = Some m /\ om_dtype m <> None.
+
+Lemma update_ometa_dtype m o n f m' :
+  update_ometa m o n f = Ok m' ->
+  om_dtype m' = so_dtype o /\ (om_dtype m <> None -> om_dtype m' = om_dtype m).
+Proof.
+  unfold update_ometa. cbv zeta.
+  destruct (om_dtype m) as [x|] eqn:Edt; cbn [andb].
+  - destruct (oz_eqb (Some x) (so_dtype o)) eqn:Eeq; cbn [negb]; [|discriminate].
+    assert (Hsame : so_dtype o = Some x).
+    { unfold oz_eqb in Eeq. destruct (so_dtype o) as [y|]; [|discriminate].
+      apply Z.eqb_eq in Eeq. congruence. }
+    destruct (so_daqmx o) as [q|].
+    + destruct (om_scalers m) as [st0|].
+      * destruct (scaler_types_eqb st0 (scaler_types q)); [|discriminate].
+        intros H. injection H as <-. cbn [om_dtype]. split; [reflexivity|intros _; exact Hsame].
+      * intros H. injection H as <-. cbn [om_dtype]. split; [reflexivity|intros _; exact Hsame].
+    + intros H. injection H as <-. cbn [om_dtype]. split; [reflexivity|intros _; exact Hsame].
+  - destruct (so_daqmx o) as [q|].
+    + destruct (om_scalers m) as [st0|].
+      * destruct (scaler_types_eqb st0 (scaler_types q)); [|discriminate].
+        intros H. injection H as <-. cbn [om_dtype]. split; [reflexivity|intros H; contradiction].
+      * intros H. injection H as <-. cbn [om_dtype]. split; [reflexivity|intros H; contradiction].
+    + intros H. injection H as <-. cbn [om_dtype]. split; [reflexivity|intros H; contradiction].
+Qed.
+
+Lemma update_object_metadata_typed : forall objs n f prev om prev' om',
+    update_object_metadata objs n f prev om = Ok (prev', om') ->
+    forall p, (om_typed p om \/ exists o, In o objs /\ so_path o = p /\ so_dtype o <> None) ->
+              om_typed p om'.
+Proof.
+  induction objs as [|o objs IH]; intros n f prev om prev' om' H p Hp.
+  - cbn [update_object_metadata] in H. injection H as _ <-.
+    destruct Hp as [Hp|(o & [] & _)]. exact Hp.
+  - cbn [update_object_metadata] in H.
+    destruct (update_ometa (get_ometa (so_path o) om) o n f) as [m'|e] eqn:Em; cbn [bind] in H; [|discriminate].
+    destruct (update_ometa_dtype _ _ _ _ _ Em) as [Hd1 Hd2].
+    apply (IH _ _ _ _ _ _ H p).
+    destruct (bytes_eqb p (so_path o)) eqn:E.
+    + apply bytes_eqb_eq in E. subst p.
+      destruct Hp as [(m & Hm & Hty)|(o' & [<-|Hin] & Hpath & Hty)].
+      * left. exists m'. rewrite alookup_aset, bytes_eqb_refl. split; [reflexivity|].
+        rewrite Hd2; unfold get_ometa; rewrite Hm; exact Hty.
+      * left. exists m'. rewrite alookup_aset, bytes_eqb_refl. split; [reflexivity|].
+        rewrite Hd1. exact Hty.
+      * right. exists o'. split; [exact Hin|]. split; assumption.
+    + destruct Hp as [(m & Hm & Hty)|(o' & [<-|Hin] & Hpath & Hty)].
+      * left. exists m. rewrite alookup_aset, E. split; assumption.
+      * subst p. rewrite bytes_eqb_refl in E. discriminate.
+      * right. exists o'. split; [exact Hin|]. split; assumption.
+Qed.
+
+Lemma update_object_properties_typed props : forall om p,
+    om_typed p om -> om_typed p (update_object_properties props om).
+Proof.
+  unfold update_object_properties.
+  induction props as [|[k ps] props IH]; intros om p Hp; [exact Hp|].
+  cbn [fold_left fst snd]. apply IH. destruct Hp as (m & Hm & Hty).
+  unfold om_typed. rewrite alookup_aset.
+  destruct (bytes_eqb p k) eqn:E.
+  - apply bytes_eqb_eq in E. subst k. unfold get_ometa. rewrite Hm.
+    eexists. split; [reflexivity|]. exact Hty.
+  - exists m. split; assumption.
+Qed.
+
 (* everything the later steps need to know about a successful run of the
    metadata pass on syntax, in one induction *)
 Lemma sm_loop_trace : forall segs w pos ps pi st stf,
@@ -182,6 +259,9 @@ Lemma sm_loop_trace : forall segs w pos ps pi st stf,
       (forall p, om_len (get_ometa p (rs_om stf)) =
                  om_len (get_ometa p (rs_om st)) + zsum (map (seg_total p) gs)) /\
       (NoDup (map fst (rs_om st)) -> NoDup (map fst (rs_om stf))) /\
+      (forall p, (om_typed p (rs_om st) \/
+                  exists g o, In g gs /\ In o (sg_objs g) /\ so_path o = p /\ so_dtype o <> None) ->
+                 om_typed p (rs_om stf)) /\
       rs_version stf = match rs_version st with
                        | Some v => Some v
                        | None => option_map fs_version (hd_error segs)
@@ -190,13 +270,15 @@ Proof.
   induction segs as [|s r IH]; intros w pos ps pi st stf H.
   - rewrite sm_loop_nil in H. injection H as <-. exists []. rewrite app_nil_r.
     split; [reflexivity|]. split; [constructor|]. split; [intros p; cbn [map zsum fold_right]; lia|].
-    split; [tauto|]. destruct (rs_version st); reflexivity.
+    split; [tauto|]. split.
+    + intros p [Hp|(g & o & [] & _)]. exact Hp.
+    + destruct (rs_version st); reflexivity.
   - apply sm_loop_cons_inv in H.
     destruct H as (objs & props & idx & cache & nch & fin & po & om & Hro & Hcc & Hum & Hloop).
-    apply IH in Hloop. destruct Hloop as (gs & Hsegs & Hat & Hlen & Hnd & Hver).
-    cbn [rs_segments rs_om rs_version] in Hsegs, Hlen, Hnd, Hver.
+    apply IH in Hloop. destruct Hloop as (gs & Hsegs & Hat & Hlen & Hnd & Htyped & Hver).
+    cbn [rs_segments rs_om rs_version] in Hsegs, Hlen, Hnd, Htyped, Hver.
     rewrite <- app_assoc in Hsegs. cbn [app] in Hsegs.
-    eexists. split; [exact Hsegs|]. split; [|split; [|split]].
+    eexists. split; [exact Hsegs|]. split; [|split; [|split; [|split]]].
     + constructor; [|exact Hat].
       unfold seg_at. cbn [sg_pos sg_toc sg_data sg_next sg_incomplete sg_objs sg_nchunks sg_final].
       unfold fseg_len. repeat split; try reflexivity; try lia. exact Hcc.
@@ -206,6 +288,14 @@ Proof.
       fold (zsum (map (seg_total p) gs)). lia.
     + intros Hnd0. apply Hnd. apply update_object_properties_nodup.
       apply (update_object_metadata_nodup _ _ _ _ _ _ _ Hum). exact Hnd0.
+    + intros p Hp. apply Htyped.
+      destruct Hp as [Hp|(g & o & [<-|Hg] & Ho & Hpath & Hty)].
+      * left. apply update_object_properties_typed.
+        apply (update_object_metadata_typed _ _ _ _ _ _ _ Hum p). left. exact Hp.
+      * left. apply update_object_properties_typed.
+        apply (update_object_metadata_typed _ _ _ _ _ _ _ Hum p). right.
+        cbn [sg_objs] in Ho. exists o. split; [exact Ho|]. split; assumption.
+      * right. exists g, o. split; [exact Hg|]. split; [exact Ho|]. split; assumption.
     + rewrite Hver. cbn [hd_error option_map]. destruct (rs_version st); reflexivity.
 Qed.
 
@@ -214,13 +304,18 @@ Theorem sm_run_trace segs w st :
   segs_at 0 segs (rs_segments st) /\
   (forall p, om_len (get_ometa p (rs_om st)) = zsum (map (seg_total p) (rs_segments st))) /\
   NoDup (map fst (rs_om st)) /\
+  (forall g o, In g (rs_segments st) -> In o (sg_objs g) -> so_dtype o <> None ->
+               om_typed (so_path o) (rs_om st)) /\
   rs_version st = option_map fs_version (hd_error segs).
 Proof.
   unfold sm_run. intros H. apply sm_loop_trace in H.
-  destruct H as (gs & Hsegs & Hat & Hlen & Hnd & Hver). cbn [rs_segments rs_om rs_version rstate0 app] in *.
-  rewrite Hsegs. split; [exact Hat|]. split; [|split; [|exact Hver]].
+  destruct H as (gs & Hsegs & Hat & Hlen & Hnd & Htyped & Hver).
+  cbn [rs_segments rs_om rs_version rstate0 app] in *.
+  rewrite Hsegs. split; [exact Hat|]. split; [|split; [|split; [|exact Hver]]].
   - intros p. rewrite Hlen. unfold get_ometa. cbn [alookup ometa0 om_len]. lia.
   - apply Hnd. constructor.
+  - intros g o Hg Ho Hty. apply Htyped. right. exists g, o.
+    split; [exact Hg|]. split; [exact Ho|]. split; [reflexivity|exact Hty].
 Qed.
 
 Corollary sm_segment_positions segs w st :
@@ -480,8 +575,6 @@ Proof.
     + rewrite <- app_assoc. reflexivity.
     + rewrite blen_app. change TAG_DATA with (tag_of false). change true with (negb false).
       rewrite (blen_ser_seg false s Hs). unfold fseg_len in Hat'.
-      replace (blen pre + (28 + blen (fs_meta_bytes s) + blen (fs_data s)))
-        with (blen pre + (28 + blen (fs_meta_bytes s) + blen (fs_data s))) by lia.
       exact Hat'.
     + exact Henc'.
     + intros c kv Hc Hin. rewrite Hlk1. apply is_data_receiver_radd.
@@ -1078,7 +1171,7 @@ Theorem om_len_counts_values segs w st chunkss p :
   segs_encode (rs_segments st) segs chunkss ->
   om_len (get_ometa p (rs_om st)) = Z.of_nat (length (chan_values p (concat chunkss))).
 Proof.
-  intros Hrun Henc. destruct (sm_run_trace segs w st Hrun) as (Hat & Hlen & _ & _).
+  intros Hrun Henc. destruct (sm_run_trace segs w st Hrun) as (Hat & Hlen & _).
   rewrite Hlen. exact (segs_total_count p _ _ _ _ Hat Henc).
 Qed.
 
@@ -1139,7 +1232,7 @@ Proof.
 Qed.
 
 (* R6 with length consistency and distinctness of channel paths discharged *)
-Theorem read_correct segs st h chunkss :
+Theorem read_correct_given_channels segs st h chunkss :
   wf_file segs ->
   sm_run segs false = Ok st ->
   build_hierarchy (rs_om st) = Ok h ->
@@ -1166,6 +1259,763 @@ Lemma om_paths_canonical_b_sound om : om_paths_canonical_b om = true -> om_paths
 Proof.
   unfold om_paths_canonical_b. intros H p m g c Hin Hp. rewrite forallb_forall in H.
   specialize (H (p, m) Hin). cbn [fst] in H. rewrite Hp in H. apply bytes_eqb_eq. exact H.
+Qed.
+
+(* ---- every path with data is a typed channel of the hierarchy ---- *)
+
+(* (a) the keys of the decoded chunks are paths of typed data objects *)
+Lemma vals_ok_dtype n o vs : vals_ok n o vs -> so_dtype o <> None.
+Proof. intros [_ H] E. rewrite E in H. exact H. Qed.
+
+Lemma sized_dtype o : sized o <> None -> so_dtype o <> None.
+Proof. unfold sized. intros H E. rewrite E in H. apply H. reflexivity. Qed.
+
+Lemma chunk_of_keys dobjs : forall vss kv,
+    Forall2 (fun o vs => vals_ok (so_nvals o) o vs) dobjs vss ->
+    In kv (chunk_of (combine dobjs vss)) ->
+    exists o, In o dobjs /\ so_path o = fst kv /\ so_dtype o <> None.
+Proof.
+  intros vss kv Hok Hin. unfold chunk_of in Hin. apply in_map_iff in Hin.
+  destruct Hin as ([o vs] & <- & Hin). cbn [fst snd].
+  apply Forall2_combine in Hok. destruct Hok as [Hall _]. rewrite Forall_forall in Hall.
+  specialize (Hall (o, vs) Hin). cbn [fst snd] in Hall.
+  exists o. split; [exact (in_combine_l _ _ _ _ Hin)|]. split; [reflexivity|].
+  exact (vals_ok_dtype _ _ _ Hall).
+Qed.
+
+Lemma cols_of_keys : forall dobjs rows kv,
+    In kv (cols_of dobjs rows) -> exists o, In o dobjs /\ so_path o = fst kv.
+Proof.
+  induction dobjs as [|o dobjs IH]; intros rows kv Hin; [contradiction|].
+  cbn [cols_of] in Hin. destruct Hin as [<-|Hin].
+  - exists o. split; [left; reflexivity|reflexivity].
+  - destruct (IH _ _ Hin) as (o' & Ho' & Hp). exists o'. split; [right; exact Ho'|exact Hp].
+Qed.
+
+Lemma seg_encodes_keys g data chunks :
+  seg_encodes g data chunks ->
+  forall c kv, In c chunks -> In kv c ->
+               exists o, In o (sg_objs g) /\ so_path o = fst kv /\ so_dtype o <> None.
+Proof.
+  assert (Hsub : forall o, In o (data_objs (sg_objs g)) -> In o (sg_objs g)).
+  { intros o Ho. unfold data_objs in Ho. apply filter_In in Ho. tauto. }
+  intros Henc c kv Hc Hkv.
+  destruct Henc as [Hd Hdata | css Hlay Hpos Hnd Hok Hds Hdata
+                    | nv m rows Hlay Hne Hnv Hm Hobjs Hsz Hnd Hrows Hlen Hdata].
+  - contradiction.
+  - apply in_map_iff in Hc. destruct Hc as (vss & <- & Hvss).
+    rewrite Forall_forall in Hok.
+    destruct (chunk_of_keys _ vss kv (Hok vss Hvss) Hkv) as (o & Ho & Hp & Hty).
+    exists o. split; [exact (Hsub o Ho)|]. split; assumption.
+  - destruct Hc as [<-|[]]. destruct (cols_of_keys _ _ _ Hkv) as (o & Ho & Hp).
+    exists o. split; [exact (Hsub o Ho)|]. split; [exact Hp|].
+    rewrite Forall_forall in Hsz. exact (sized_dtype o (Hsz o Ho)).
+Qed.
+
+Lemma segs_encode_chunk_origin : forall gs segs chunkss,
+    segs_encode gs segs chunkss ->
+    forall c, In c (concat chunkss) ->
+              exists g s cs, In g gs /\ seg_encodes g (fs_data s) cs /\ In c cs.
+Proof.
+  induction 1 as [|g gs s r cs css Hcs _ IH]; intros c Hc; [contradiction|].
+  cbn [concat] in Hc. apply in_app_or in Hc. destruct Hc as [Hc|Hc].
+  - exists g, s, cs. split; [left; reflexivity|]. split; assumption.
+  - destruct (IH c Hc) as (g' & s' & cs' & Hg' & Henc' & Hc').
+    exists g', s', cs'. split; [right; exact Hg'|]. split; assumption.
+Qed.
+
+(* (c) every metadata entry whose path names a channel IS a channel of the hierarchy *)
+Lemma alookup_app {V} (k : bytes) (a b : alist V) :
+  alookup k (a ++ b) = match alookup k a with Some v => Some v | None => alookup k b end.
+Proof.
+  induction a as [|[k' v'] a IH]; [reflexivity|]. cbn [app alookup].
+  destruct (bytes_eqb k k'); [reflexivity|exact IH].
+Qed.
+
+Lemma hier_scan_complete : forall om root gprops gchans root' gprops' gchans',
+    hier_scan om root gprops gchans = Ok (root', gprops', gchans') ->
+    (forall k l, alookup k gchans = Some l -> exists l', alookup k gchans' = Some l' /\ incl l l') /\
+    (forall p m g c, In (p, m) om -> path_from_string p = inr (Some g, Some c) ->
+                     exists l', alookup g gchans' = Some l' /\ In (chan_of_om g c m) l').
+Proof.
+  induction om as [|[pstr m] r IH]; intros root gprops gchans root' gprops' gchans' H.
+  - cbn [hier_scan] in H. injection H as _ _ <-. split.
+    + intros k l Hk. exists l. split; [exact Hk|apply incl_refl].
+    + intros p m g c [].
+  - rewrite hier_scan_cons in H.
+    destruct (path_from_string pstr) as [e|[[g|] [c|]]] eqn:Ep; try discriminate.
+    + (* a channel entry *)
+      destruct (IH _ _ _ _ _ _ H) as [Hkeep Hnew].
+      set (l0 := match alookup g gchans with Some l => l | None => [] end) in *.
+      assert (Hg : exists l', alookup g gchans' = Some l' /\ incl (l0 ++ [chan_of_om g c m]) l').
+      { apply Hkeep. rewrite alookup_aset, bytes_eqb_refl. reflexivity. }
+      split.
+      * intros k l Hk. destruct (bytes_eqb k g) eqn:E.
+        -- apply bytes_eqb_eq in E. subst k. destruct Hg as (l' & Hl' & Hincl).
+           exists l'. split; [exact Hl'|]. intros x Hx. apply Hincl. apply in_or_app. left.
+           unfold l0. rewrite Hk. exact Hx.
+        -- apply Hkeep. rewrite alookup_aset, E. exact Hk.
+      * intros p m0 g0 c0 [Heq|Hin] Hp.
+        -- injection Heq as -> ->. rewrite Ep in Hp. injection Hp as <- <-.
+           destruct Hg as (l' & Hl' & Hincl). exists l'. split; [exact Hl'|].
+           apply Hincl. apply in_or_app. right. left. reflexivity.
+        -- exact (Hnew p m0 g0 c0 Hin Hp).
+    + destruct (IH _ _ _ _ _ _ H) as [Hkeep Hnew]. split; [exact Hkeep|].
+      intros p m0 g0 c0 [Heq|Hin] Hp; [|exact (Hnew p m0 g0 c0 Hin Hp)].
+      injection Heq as -> ->. rewrite Ep in Hp. discriminate.
+    + destruct (IH _ _ _ _ _ _ H) as [Hkeep Hnew]. split; [exact Hkeep|].
+      intros p m0 g0 c0 [Heq|Hin] Hp; [|exact (Hnew p m0 g0 c0 Hin Hp)].
+      injection Heq as -> ->. rewrite Ep in Hp. discriminate.
+    + destruct (IH _ _ _ _ _ _ H) as [Hkeep Hnew]. split; [exact Hkeep|].
+      intros p m0 g0 c0 [Heq|Hin] Hp; [|exact (Hnew p m0 g0 c0 Hin Hp)].
+      injection Heq as -> ->. rewrite Ep in Hp. discriminate.
+Qed.
+
+Definition group_of_list (k : bytes) (l : list channel) : group := mkGroup k [] (chans_dict l).
+
+Lemma groups_fold_lookup : forall (rest : alist (list channel)) (acc : alist group) k,
+    alookup k (fold_left (fun acc kv =>
+                            match alookup (fst kv) acc with
+                            | Some _ => acc
+                            | None => acc ++ [(fst kv, mkGroup (fst kv) [] (chans_dict (snd kv)))]
+                            end) rest acc) =
+    match alookup k acc with
+    | Some grp => Some grp
+    | None => option_map (group_of_list k) (alookup k rest)
+    end.
+Proof.
+  induction rest as [|[k0 l0] rest IH]; intros acc k.
+  - cbn [fold_left alookup option_map]. destruct (alookup k acc); reflexivity.
+  - cbn [fold_left fst snd]. rewrite IH. cbn [alookup].
+    destruct (alookup k0 acc) as [g0|] eqn:E0.
+    + destruct (alookup k acc) as [grp|] eqn:Ek; [reflexivity|].
+      destruct (bytes_eqb k k0) eqn:E; [|reflexivity].
+      apply bytes_eqb_eq in E. subst k0. congruence.
+    + rewrite alookup_app. destruct (alookup k acc) as [grp|] eqn:Ek; [reflexivity|].
+      cbn [alookup]. destruct (bytes_eqb k k0) eqn:E; [|reflexivity].
+      apply bytes_eqb_eq in E. subst k0. reflexivity.
+Qed.
+
+Lemma declared_lookup (gchans : alist (list channel)) : forall (gprops : alist (alist prop)) k,
+    alookup k (map (fun kv => (fst kv, mkGroup (fst kv) (snd kv)
+                                  (chans_dict (match alookup (fst kv) gchans with
+                                               | Some l => l | None => [] end))))
+                   gprops) =
+    option_map (fun ps => mkGroup k ps (chans_dict (match alookup k gchans with
+                                                     | Some l => l | None => [] end)))
+               (alookup k gprops).
+Proof.
+  induction gprops as [|[k0 ps] gprops IH]; intros k; [reflexivity|].
+  cbn [map alookup fst snd]. destruct (bytes_eqb k k0) eqn:E; [|apply IH].
+  apply bytes_eqb_eq in E. subst k0. reflexivity.
+Qed.
+
+Lemma chans_dict_complete_gen (ch : channel) : forall (l : list channel) acc,
+    (alookup (ch_name ch) acc = Some ch \/ In ch l) ->
+    (forall ch', In ch' l -> ch_name ch' = ch_name ch -> ch' = ch) ->
+    alookup (ch_name ch) (fold_left (fun acc c => aset (ch_name c) c acc) l acc) = Some ch.
+Proof.
+  induction l as [|c l IH]; intros acc Hor Huniq.
+  - destruct Hor as [H|[]]. exact H.
+  - cbn [fold_left]. apply IH.
+    + destruct (bytes_eqb (ch_name ch) (ch_name c)) eqn:E.
+      * apply bytes_eqb_eq in E. left. rewrite alookup_aset, E, bytes_eqb_refl.
+        f_equal. apply Huniq; [left; reflexivity|symmetry; exact E].
+      * destruct Hor as [H|[->|H]].
+        -- left. rewrite alookup_aset, E. exact H.
+        -- rewrite bytes_eqb_refl in E. discriminate.
+        -- right. exact H.
+    + intros ch' Hin. apply Huniq. right. exact Hin.
+Qed.
+
+Lemma chans_dict_complete ch l :
+  In ch l -> (forall ch', In ch' l -> ch_name ch' = ch_name ch -> ch' = ch) ->
+  In (ch_name ch, ch) (chans_dict l).
+Proof.
+  intros Hin Huniq. apply alookup_In. unfold chans_dict.
+  apply chans_dict_complete_gen; [right; exact Hin|exact Huniq].
+Qed.
+
+Theorem build_hierarchy_complete om h p m g c :
+  build_hierarchy om = Ok h ->
+  NoDup (map fst om) ->
+  om_paths_canonical om ->
+  In (p, m) om ->
+  path_from_string p = inr (Some g, Some c) ->
+  In (chan_of_om g c m) (all_channels h).
+Proof.
+  intros Hh Hnd Hcanon Hin Hp. unfold build_hierarchy in Hh. cbv zeta in Hh.
+  destruct (hier_scan om _ [] []) as [[[root' gprops] gchans]|e] eqn:Hscan; cbn [bind] in Hh; [|discriminate].
+  injection Hh as <-.
+  destruct (hier_scan_complete _ _ _ _ _ _ _ Hscan) as [_ Hnew].
+  destruct (Hnew p m g c Hin Hp) as (l & Hl & Hch).
+  (* the group exists and its dictionary is chans_dict l *)
+  assert (Hgrp : exists grp, In (g, grp)
+                               (fold_left (fun acc kv =>
+                                      match alookup (fst kv) acc with
+                                      | Some _ => acc
+                                      | None => acc ++ [(fst kv, mkGroup (fst kv) [] (chans_dict (snd kv)))]
+                                      end) gchans
+                                   (map (fun kv => (fst kv, mkGroup (fst kv) (snd kv)
+                                                       (chans_dict (match alookup (fst kv) gchans with
+                                                                    | Some l => l | None => [] end))))
+                                        gprops))
+                             /\ g_chans grp = chans_dict l).
+  { pose proof (groups_fold_lookup gchans
+                  (map (fun kv => (fst kv, mkGroup (fst kv) (snd kv)
+                                      (chans_dict (match alookup (fst kv) gchans with
+                                                   | Some l => l | None => [] end))))
+                       gprops) g) as Hlk.
+    rewrite declared_lookup, Hl in Hlk.
+    destruct (alookup g gprops) as [ps|]; cbn [option_map] in Hlk.
+    - eexists. split; [apply alookup_In; exact Hlk|reflexivity].
+    - eexists. split; [apply alookup_In; exact Hlk|reflexivity]. }
+  destruct Hgrp as (grp & Hgin & Hgch).
+  unfold all_channels. cbn [h_groups]. apply in_flat_map. exists (g, grp). split; [exact Hgin|].
+  cbn [snd]. rewrite Hgch.
+  apply (in_map snd _ (c, chan_of_om g c m)).
+  change c with (ch_name (chan_of_om g c m)) at 1.
+  apply chans_dict_complete; [exact Hch|].
+  (* any channel of this group with the same name is the same metadata entry *)
+  intros ch' Hch' Hname.
+  assert (Hl' : In (g, l) gchans) by (apply alookup_In; exact Hl).
+  destruct (hier_scan_chans (fun k ch => ch_group ch = k /\ chan_from_om om ch)
+                            om _ [] [] root' gprops gchans Hscan) with (k := g) (l := l) (ch := ch')
+    as [Hg' (p' & m' & Hin' & Hp' & Heq')]; try assumption.
+  { intros pstr m0 g0 c0 Hin0 Hp0. split; [reflexivity|].
+    exists pstr, m0. split; [exact Hin0|]. split; [exact Hp0|reflexivity]. }
+  { intros k0 l0 ch0 []. }
+  cbn [chan_of_om ch_name] in Hname. rewrite Hg', Hname in Hp'.
+  assert (Hpp : p' = p).
+  { rewrite <- (Hcanon p' m' g c Hin' Hp'). exact (Hcanon p m g c Hin Hp). }
+  subst p'.
+  assert (Hmm : m' = m).
+  { pose proof (alookup_in_nodup p m' om Hnd Hin') as H1.
+    pose proof (alookup_in_nodup p m om Hnd Hin) as H2. congruence. }
+  subst m'. rewrite Heq', Hg', Hname. reflexivity.
+Qed.
+
+(* every object that has a data type is a channel: its path has a group and a
+   channel component (data on the root or on a group object has no reader API) *)
+Definition typed_objects_are_channels (om : alist ometa) : Prop :=
+  forall p m, In (p, m) om -> om_dtype m <> None ->
+              exists g c, path_from_string p = inr (Some g, Some c).
+
+Theorem data_paths_are_channels_ser segs w st h chunkss :
+  sm_run segs w = Ok st ->
+  build_hierarchy (rs_om st) = Ok h ->
+  segs_encode (rs_segments st) segs chunkss ->
+  om_paths_canonical (rs_om st) ->
+  typed_objects_are_channels (rs_om st) ->
+  data_paths_are_channels h (concat chunkss).
+Proof.
+  intros Hrun Hh Henc Hcanon Hshape c kv Hc Hkv.
+  destruct (segs_encode_chunk_origin _ _ _ Henc c Hc) as (g & s & cs & Hg & Hcs & Hccs).
+  destruct (seg_encodes_keys g _ cs Hcs c kv Hccs Hkv) as (o & Ho & Hp & Hty).
+  destruct (sm_run_trace segs w st Hrun) as (_ & _ & Hnd & Htyped & _).
+  destruct (Htyped g o Hg Ho Hty) as (m & Hm & Hmty).
+  apply alookup_In in Hm.
+  destruct (Hshape _ m Hm Hmty) as (gn & cn & Hparse).
+  exists (chan_of_om gn cn m). split; [|split].
+  - exact (build_hierarchy_complete _ h _ m gn cn Hh Hnd Hcanon Hm Hparse).
+  - change (path_to_string (Some gn) (Some cn) = fst kv).
+    rewrite (Hcanon _ m gn cn Hm Hparse). exact Hp.
+  - exact Hmty.
+Qed.
+
+Definition typed_objects_are_channels_b (om : alist ometa) : bool :=
+  forallb (fun pm : bytes * ometa =>
+             match om_dtype (snd pm) with
+             | None => true
+             | Some _ => match path_from_string (fst pm) with
+                         | inr (Some _, Some _) => true
+                         | _ => false
+                         end
+             end) om.
+
+Lemma typed_objects_are_channels_b_sound om :
+  typed_objects_are_channels_b om = true -> typed_objects_are_channels om.
+Proof.
+  unfold typed_objects_are_channels_b. intros H p m Hin Hty. rewrite forallb_forall in H.
+  specialize (H (p, m) Hin). cbn [fst snd] in H.
+  destruct (om_dtype m); [|contradiction].
+  destruct (path_from_string p) as [e|[[g|] [c|]]]; try discriminate.
+  exists g, c. reflexivity.
+Qed.
+
+(* R6 with the channel hypothesis discharged as well; no_daqmx_channels remains *)
+Theorem read_correct_given_no_daqmx segs st h chunkss :
+  wf_file segs ->
+  sm_run segs false = Ok st ->
+  build_hierarchy (rs_om st) = Ok h ->
+  segs_encode (rs_segments st) segs chunkss ->
+  no_daqmx_channels h ->
+  om_paths_canonical (rs_om st) ->
+  typed_objects_are_channels (rs_om st) ->
+  rd_all (ser_file segs) = Ok (expected_tokens st h (concat chunkss), true).
+Proof.
+  intros Hwf Hrun Hh Henc Hnd Hcanon Hshape.
+  apply read_correct_given_channels; try assumption.
+  exact (data_paths_are_channels_ser segs false st h chunkss Hrun Hh Henc Hcanon Hshape).
+Qed.
+
+(* ---- reading the statement: chunk_values is a dictionary lookup ---- *)
+
+Lemma chunk_values_not_in p (c : chunk) : ~ In p (map fst c) -> chunk_values p c = [].
+Proof.
+  induction c as [|[k d] c IH]; intros H; [reflexivity|].
+  rewrite chunk_values_cons. unfold entry_values. cbn [fst snd].
+  destruct (bytes_eqb p k) eqn:E.
+  - apply bytes_eqb_eq in E. exfalso. apply H. left. symmetry. exact E.
+  - cbn [app]. apply IH. intros Hin. apply H. right. exact Hin.
+Qed.
+
+Lemma chunk_values_lookup p (c : chunk) :
+  NoDup (map fst c) ->
+  chunk_values p c = match alookup p c with Some (CData vs) => vs | _ => [] end.
+Proof.
+  induction c as [|[k d] c IH]; intros Hnd; [reflexivity|].
+  cbn [map fst] in Hnd. inversion Hnd as [|x y Hnin Hnd']; subst x y.
+  rewrite chunk_values_cons. unfold entry_values. cbn [fst snd alookup].
+  destruct (bytes_eqb p k) eqn:E.
+  - apply bytes_eqb_eq in E. subst k. rewrite (chunk_values_not_in p c Hnin), app_nil_r. reflexivity.
+  - cbn [app]. apply IH. exact Hnd'.
+Qed.
+
+Lemma cols_of_key_list : forall dobjs rows, map fst (cols_of dobjs rows) = map so_path dobjs.
+Proof.
+  induction dobjs as [|o dobjs IH]; intros rows; [reflexivity|].
+  cbn [cols_of map fst]. rewrite IH. reflexivity.
+Qed.
+
+Lemma seg_encodes_nodup_keys g data chunks :
+  seg_encodes g data chunks -> Forall (fun c : chunk => NoDup (map fst c)) chunks.
+Proof.
+  intros [Hd Hdata | css Hlay Hpos Hnd Hok Hds Hdata
+          | nv m rows Hlay Hne Hnv Hm Hobjs Hsz Hnd Hrows Hlen Hdata].
+  - constructor.
+  - apply Forall_map. eapply Forall_impl; [|exact Hok]. intros vss Hvss. cbn beta.
+    apply Forall2_combine in Hvss. destruct Hvss as [_ Hlen].
+    unfold chunk_of. rewrite map_map. cbn [fst].
+    rewrite <- (map_map fst so_path), (map_fst_combine _ _ Hlen). exact Hnd.
+  - constructor; [|constructor]. rewrite cols_of_key_list. exact Hnd.
+Qed.
+
+(* ---- R1 by index ---- *)
+
+Fixpoint seg_offset (segs : list fseg) (i : nat) : Z :=
+  match i, segs with
+  | S i', s :: r => fseg_len s + seg_offset r i'
+  | _, _ => 0
+  end.
+
+Lemma segs_at_nth : forall segs gs pos i s,
+    segs_at pos segs gs -> nth_error segs i = Some s ->
+    exists g, nth_error gs i = Some g /\ seg_at (pos + seg_offset segs i) s g.
+Proof.
+  induction segs as [|s0 r IH]; intros gs pos i s Hat Hi; [destruct i; discriminate|].
+  inversion Hat as [|pos' s' r' g gs' Hg Hat']; subst.
+  destruct i as [|i]; cbn [nth_error seg_offset] in *.
+  - injection Hi as <-. exists g. split; [reflexivity|]. rewrite Z.add_0_r. exact Hg.
+  - destruct (IH gs' _ i s Hat' Hi) as (g' & Hg' & Hat'').
+    exists g'. split; [exact Hg'|]. rewrite Z.add_assoc. exact Hat''.
+Qed.
+
+Lemma seg_offset_blen : forall segs i,
+    wf_file segs -> (i <= length segs)%nat ->
+    seg_offset segs i = blen (ser_file (firstn i segs)).
+Proof.
+  induction segs as [|s r IH]; intros i Hwf Hi.
+  - destruct i; reflexivity.
+  - destruct i as [|i]; [reflexivity|]. cbn [length] in Hi.
+    unfold wf_file in Hwf. cbn [forallb] in Hwf. apply andb_prop in Hwf. destruct Hwf as [Hs Hr].
+    cbn [seg_offset firstn]. rewrite (blen_ser_file_cons s _ Hs).
+    rewrite (IH i Hr) by lia. unfold fseg_len. lia.
+Qed.
+
+(* the i-th segment record of a successful run describes the i-th syntax
+   segment at its byte offset in the serialised file *)
+Theorem sm_segment_positions_nth segs w st i s :
+  wf_file segs ->
+  sm_run segs w = Ok st ->
+  nth_error segs i = Some s ->
+  exists g, nth_error (rs_segments st) i = Some g /\
+            seg_at (blen (ser_file (firstn i segs))) s g.
+Proof.
+  intros Hwf Hrun Hi. pose proof (sm_segment_positions segs w st Hrun) as Hat.
+  destruct (segs_at_nth segs _ 0 i s Hat Hi) as (g & Hg & Hsg).
+  exists g. split; [exact Hg|]. rewrite Z.add_0_l in Hsg.
+  rewrite <- (seg_offset_blen segs i Hwf); [exact Hsg|].
+  apply Nat.lt_le_incl. apply nth_error_Some. rewrite Hi. discriminate.
+Qed.
+
+(* the version token is the first segment's version *)
+Lemma sm_run_version segs w st :
+  sm_run segs w = Ok st ->
+  match rs_version st with Some v => v | None => 0 end =
+  match segs with s :: _ => fs_version s | [] => 0 end.
+Proof.
+  intros Hrun. destruct (sm_run_trace segs w st Hrun) as (_ & _ & _ & _ & Hver).
+  rewrite Hver. destruct segs; reflexivity.
+Qed.
+
+(* ---- no DAQmx: a DAQmx-typed object is a DAQmx object, and a DAQmx object
+        has raw data in the segment that defines it ---- *)
+
+Lemma update_existing_inv (S P : sobj -> Prop) o i o' :
+  (forall o, S o -> P o) ->
+  (forall o b, S o -> P (set_has_data o b)) ->
+  (forall p i o, new_object p i = Ok o -> P o) ->
+  update_existing o i = Ok o' -> S o -> P o'.
+Proof.
+  intros HSP Htog Hnew H Ho. unfold update_existing in H.
+  destruct i as [| |lf dt dim n total|kind dt dim n scalers widths].
+  - injection H as <-. destruct (so_has_data o); [apply Htog|apply HSP]; exact Ho.
+  - injection H as <-. destruct (so_has_data o); [apply HSP|apply Htog]; exact Ho.
+  - exact (Hnew _ _ _ H).
+  - exact (Hnew _ _ _ H).
+Qed.
+
+Lemma step_entry_inv (S P : sobj -> Prop) base prev ordered x ordered' :
+  (forall o, S o -> P o) ->
+  (forall o b, S o -> P (set_has_data o b)) ->
+  (forall p i o, new_object p i = Ok o -> P o) ->
+  (forall b, base = Some b -> Forall S b) ->
+  (forall p po, alookup p prev = Some po -> S po) ->
+  step_entry base prev ordered x = Ok ordered' ->
+  Forall P ordered -> Forall P ordered'.
+Proof.
+  intros HSP Htog Hnew Hbase Hprev H HF. unfold step_entry in H.
+  destruct (match base with Some b => existing_lookup (e_path x) 0 b None | None => None end)
+    as [[i o]|] eqn:E.
+  - destruct base as [b|]; [|discriminate].
+    apply existing_lookup_some in E. destruct E as (_ & Hnth & _).
+    apply nth_error_In in Hnth.
+    pose proof (Hbase b eq_refl) as Hb. rewrite Forall_forall in Hb.
+    destruct (update_existing o (e_idx x)) as [o'|e] eqn:Eu; cbn [bind] in H; [|discriminate].
+    injection H as <-. apply Forall_replace_nth; [exact HF|].
+    exact (update_existing_inv S P o _ o' HSP Htog Hnew Eu (Hb o Hnth)).
+  - destruct (alookup (e_path x) prev) as [po|] eqn:Ep.
+    + destruct (reuse_previous po (e_idx x)) as [o'|e] eqn:Eu; cbn [bind] in H; [|discriminate].
+      injection H as <-. apply Forall_app. split; [exact HF|]. constructor; [|constructor].
+      exact (update_existing_inv S P po _ o' HSP Htog Hnew Eu (Hprev _ _ Ep)).
+    + destruct (e_idx x) as [| |lf dt dim n total|kind dt dim n scalers widths] eqn:Ei.
+      * destruct (new_object (e_path x) INoData) as [o'|e] eqn:En; cbn [bind] in H; [|discriminate].
+        injection H as <-. apply Forall_app. split; [exact HF|]. constructor; [|constructor].
+        exact (Hnew _ _ _ En).
+      * discriminate.
+      * destruct (new_object (e_path x) (IFull lf dt dim n total)) as [o'|e] eqn:En;
+          cbn [bind] in H; [|discriminate].
+        injection H as <-. apply Forall_app. split; [exact HF|]. constructor; [|constructor].
+        exact (Hnew _ _ _ En).
+      * destruct (new_object (e_path x) (IDaqmx kind dt dim n scalers widths)) as [o'|e] eqn:En;
+          cbn [bind] in H; [|discriminate].
+        injection H as <-. apply Forall_app. split; [exact HF|]. constructor; [|constructor].
+        exact (Hnew _ _ _ En).
+Qed.
+
+Lemma fold_entries_inv (S P : sobj -> Prop) base prev :
+  (forall o, S o -> P o) ->
+  (forall o b, S o -> P (set_has_data o b)) ->
+  (forall p i o, new_object p i = Ok o -> P o) ->
+  (forall b, base = Some b -> Forall S b) ->
+  (forall p po, alookup p prev = Some po -> S po) ->
+  forall es ordered r,
+    fold_entries base prev ordered es = Ok r -> Forall P ordered -> Forall P r.
+Proof.
+  intros HSP Htog Hnew Hbase Hprev. induction es as [|x es IH]; intros ordered r H HF.
+  - cbn [fold_entries] in H. injection H as <-. exact HF.
+  - cbn [fold_entries] in H.
+    destruct (step_entry base prev ordered x) as [o'|e] eqn:Es; cbn [bind] in H; [|discriminate].
+    apply (IH o' r H).
+    exact (step_entry_inv S P base prev ordered x o' HSP Htog Hnew Hbase Hprev Es HF).
+Qed.
+
+Lemma read_segment_objects_inv (S P : sobj -> Prop) toc md prev ps objs props :
+  (forall o, S o -> P o) ->
+  (forall o b, S o -> P (set_has_data o b)) ->
+  (forall p i o, new_object p i = Ok o -> P o) ->
+  (forall l, ps = Some l -> Forall S l) ->
+  (forall p po, alookup p prev = Some po -> S po) ->
+  read_segment_objects toc md prev ps = Ok (objs, props) ->
+  Forall P objs.
+Proof.
+  intros HSP Htog Hnew Hps Hprev H. unfold read_segment_objects in H.
+  destruct md as [es|].
+  - cbv zeta in H.
+    destruct (fold_entries _ prev _ es) as [ordered|e] eqn:Ef; cbn [bind] in H; [|discriminate].
+    injection H as <- _.
+    refine (fold_entries_inv S P _ prev HSP Htog Hnew _ Hprev es _ ordered Ef _).
+    + intros b Hb. destruct (toc_has toc TOC_NEWLIST); [discriminate|]. exact (Hps b Hb).
+    + destruct (toc_has toc TOC_NEWLIST); [constructor|].
+      destruct ps as [l|]; [|constructor].
+      eapply Forall_impl; [|exact (Hps l eq_refl)]. exact HSP.
+  - destruct ps as [l|]; [|discriminate]. injection H as <- _.
+    eapply Forall_impl; [|exact (Hps l eq_refl)]. exact HSP.
+Qed.
+
+(* some recorded segment has a DAQmx object among its data objects *)
+Definition daqmx_seen (gs : list segment) : Prop :=
+  exists g o, In g gs /\ In o (data_objs (sg_objs g)) /\ so_daqmx o <> None.
+
+Definition dq_settled (gs : list segment) (o : sobj) : Prop :=
+  (so_dtype o = Some T_DAQMX -> so_daqmx o <> None) /\
+  (so_daqmx o <> None -> daqmx_seen gs).
+
+Definition dq_pending (gs : list segment) (o : sobj) : Prop :=
+  (so_dtype o = Some T_DAQMX -> so_daqmx o <> None) /\
+  (so_daqmx o <> None -> so_has_data o = true \/ daqmx_seen gs).
+
+Lemma new_object_dq gs p i o : new_object p i = Ok o -> dq_pending gs o.
+Proof.
+  unfold new_object, dq_pending. intros H.
+  destruct i as [| |lf dt dim n total|kind dt dim n scalers widths].
+  - injection H as <-. cbn [so_dtype so_daqmx]. split; [discriminate|intros E; contradiction].
+  - injection H as <-. cbn [so_dtype so_daqmx]. split; [discriminate|intros E; contradiction].
+  - destruct (tds_size dt) as [sz|] eqn:Esz; [|discriminate].
+    destruct (_ && _) eqn:Eand; [discriminate|].
+    destruct (negb (dim =? 1)); [discriminate|].
+    injection H as <-. cbn [so_dtype so_daqmx]. split; [|intros E; contradiction].
+    intros Hdt. injection Hdt as ->. exfalso.
+    vm_compute in Esz. injection Esz as <-. vm_compute in Eand. discriminate.
+  - destruct (tds_size dt) as [sz|]; [|discriminate].
+    destruct (negb (dim =? 1)); [discriminate|].
+    destruct (negb (forallb _ scalers)); [discriminate|].
+    destruct (_ && _); [discriminate|].
+    injection H as <-. cbn [so_dtype so_daqmx so_has_data].
+    split; [intros _; discriminate|intros _; left; reflexivity].
+Qed.
+
+Lemma daqmx_seen_app gs gs' : daqmx_seen gs -> daqmx_seen (gs ++ gs').
+Proof.
+  intros (g & o & Hg & Ho & Hq). exists g, o. split; [apply in_or_app; left; exact Hg|]. split; assumption.
+Qed.
+
+Lemma dq_settled_app gs gs' o : dq_settled gs o -> dq_settled (gs ++ gs') o.
+Proof. intros [H1 H2]. split; [exact H1|]. intros H. apply daqmx_seen_app. exact (H2 H). Qed.
+
+(* recording the segment settles its objects *)
+Lemma dq_pending_settle gs g o :
+  In o (sg_objs g) -> dq_pending gs o -> dq_settled (gs ++ [g]) o.
+Proof.
+  intros Ho [H1 H2]. split; [exact H1|]. intros Hq. destruct (H2 Hq) as [Hd|Hs].
+  - exists g, o. split; [apply in_or_app; right; left; reflexivity|]. split; [|exact Hq].
+    unfold data_objs. apply filter_In. split; assumption.
+  - apply daqmx_seen_app. exact Hs.
+Qed.
+
+Lemma sm_loop_dq : forall segs w pos ps pi st stf,
+    sm_loop segs w pos ps pi st = Ok stf ->
+    (forall p po, alookup p (rs_prev_objs st) = Some po -> dq_settled (rs_segments st) po) ->
+    (forall l, ps = Some l -> Forall (dq_settled (rs_segments st)) l) ->
+    (forall g, In g (rs_segments st) -> Forall (dq_settled (rs_segments st)) (sg_objs g)) ->
+    forall g, In g (rs_segments stf) -> Forall (dq_settled (rs_segments stf)) (sg_objs g).
+Proof.
+  induction segs as [|s r IH]; intros w pos ps pi st stf H Hprev Hps Hsegs.
+  - rewrite sm_loop_nil in H. injection H as <-. exact Hsegs.
+  - apply sm_loop_cons_inv in H.
+    destruct H as (objs & props & idx & cache & nch & fin & po & om & Hro & Hcc & Hum & Hloop).
+    set (seg := mkSeg pos (fs_toc s) (pos + fseg_len s) (pos + 28 + blen (fs_meta_bytes s))
+                      false objs idx nch fin) in *.
+    assert (Hpend : Forall (dq_pending (rs_segments st)) objs).
+    { apply (read_segment_objects_inv (dq_settled (rs_segments st)) (dq_pending (rs_segments st))
+                                      _ _ _ _ _ _) with (6 := Hro).
+      - intros o [H1 H2]. split; [exact H1|]. intros Hq. right. exact (H2 Hq).
+      - intros o b [H1 H2]. split; [exact H1|]. intros Hq. right. exact (H2 Hq).
+      - intros p i o. apply new_object_dq.
+      - exact Hps.
+      - exact Hprev. }
+    assert (Hset : Forall (dq_settled (rs_segments st ++ [seg])) objs).
+    { apply Forall_forall. intros o Ho. apply (dq_pending_settle _ seg o); [exact Ho|].
+      rewrite Forall_forall in Hpend. exact (Hpend o Ho). }
+    apply (IH _ _ _ _ _ _ Hloop); cbn [rs_prev_objs rs_segments].
+    + apply (update_object_metadata_values (dq_settled (rs_segments st ++ [seg])) _ _ _ _ _ _ _ Hum).
+      * intros p po0 Hp. apply dq_settled_app. exact (Hprev p po0 Hp).
+      * exact Hset.
+    + intros l Hl. injection Hl as <-. exact Hset.
+    + intros g Hg. apply in_app_or in Hg. destruct Hg as [Hg|[<-|[]]].
+      * eapply Forall_impl; [|exact (Hsegs g Hg)]. intros o. apply dq_settled_app.
+      * exact Hset.
+Qed.
+
+Theorem sm_run_dq segs w st :
+  sm_run segs w = Ok st ->
+  forall g o, In g (rs_segments st) -> In o (sg_objs g) -> dq_settled (rs_segments st) o.
+Proof.
+  unfold sm_run. intros H g o Hg Ho.
+  pose proof (sm_loop_dq segs w 0 None [] rstate0 st H) as Hall.
+  cbn [rstate0 rs_prev_objs rs_segments alookup] in Hall.
+  assert (HF : Forall (dq_settled (rs_segments st)) (sg_objs g)).
+  { apply Hall; try assumption.
+    - intros p po Hp. discriminate.
+    - intros l Hl. discriminate.
+    - intros g0 []. }
+  rewrite Forall_forall in HF. exact (HF o Ho).
+Qed.
+
+Lemma filter_length_0 {A} (f : A -> bool) (l : list A) :
+  length (filter f l) = 0%nat -> forall x, In x l -> f x = false.
+Proof.
+  induction l as [|a l IH]; intros H x Hx; [contradiction|].
+  cbn [filter] in H. destruct (f a) eqn:E; [discriminate|].
+  destruct Hx as [<-|Hx]; [exact E|exact (IH H x Hx)].
+Qed.
+
+Lemma seg_layout_not_daqmx g lay :
+  seg_layout g = Ok lay -> lay <> LDaqmx ->
+  forall o, In o (data_objs (sg_objs g)) -> so_daqmx o = None.
+Proof.
+  unfold seg_layout, have_daqmx. cbv zeta. intros H Hlay o Ho.
+  destruct (Nat.eqb (length (filter _ (data_objs (sg_objs g)))) 0) eqn:E0.
+  - apply Nat.eqb_eq in E0. pose proof (filter_length_0 _ _ E0 o Ho) as Hf. cbn beta in Hf.
+    destruct (so_daqmx o); [discriminate|reflexivity].
+  - destruct (Nat.eqb _ (length (data_objs (sg_objs g)))); cbn [bind] in H; [|discriminate].
+    injection H as <-. contradiction.
+Qed.
+
+Lemma seg_encodes_no_daqmx g data chunks :
+  seg_encodes g data chunks -> forall o, In o (data_objs (sg_objs g)) -> so_daqmx o = None.
+Proof.
+  intros [Hd Hdata | css Hlay Hpos Hnd Hok Hds Hdata
+          | nv m rows Hlay Hne Hnv Hm Hobjs Hsz Hnd Hrows Hlen Hdata] o Ho.
+  - rewrite Hd in Ho. contradiction.
+  - apply (seg_layout_not_daqmx g LContig Hlay); [discriminate|exact Ho].
+  - apply (seg_layout_not_daqmx g LInterleaved Hlay); [discriminate|exact Ho].
+Qed.
+
+Lemma segs_encode_all : forall gs segs chunkss,
+    segs_encode gs segs chunkss ->
+    forall g, In g gs -> exists s cs, seg_encodes g (fs_data s) cs.
+Proof.
+  induction 1 as [|g gs s r cs css Hcs _ IH]; intros g0 Hg0; [contradiction|].
+  destruct Hg0 as [<-|Hg0]; [exists s, cs; exact Hcs|exact (IH g0 Hg0)].
+Qed.
+
+Lemma segs_encode_no_daqmx gs segs chunkss : segs_encode gs segs chunkss -> ~ daqmx_seen gs.
+Proof.
+  intros Henc (g & o & Hg & Ho & Hq).
+  destruct (segs_encode_all _ _ _ Henc g Hg) as (s & cs & Hcs).
+  apply Hq. exact (seg_encodes_no_daqmx g _ cs Hcs o Ho).
+Qed.
+
+(* a data type recorded in the per-object metadata is the type of some segment object *)
+Lemma update_object_metadata_dtype_origin : forall objs n f prev om prev' om',
+    update_object_metadata objs n f prev om = Ok (prev', om') ->
+    forall p m, alookup p om' = Some m ->
+                (exists m0, alookup p om = Some m0 /\ om_dtype m0 = om_dtype m) \/
+                (exists o, In o objs /\ so_dtype o = om_dtype m).
+Proof.
+  induction objs as [|o objs IH]; intros n f prev om prev' om' H p m Hm.
+  - cbn [update_object_metadata] in H. injection H as _ <-. left. exists m. split; [exact Hm|reflexivity].
+  - cbn [update_object_metadata] in H.
+    destruct (update_ometa (get_ometa (so_path o) om) o n f) as [m1|e] eqn:Em; cbn [bind] in H; [|discriminate].
+    destruct (update_ometa_dtype _ _ _ _ _ Em) as [Hd1 _].
+    destruct (IH _ _ _ _ _ _ H p m Hm) as [(m0 & Hm0 & Hdt)|(o' & Ho' & Hdt)].
+    + rewrite alookup_aset in Hm0. destruct (bytes_eqb p (so_path o)).
+      * injection Hm0 as <-. right. exists o. split; [left; reflexivity|]. rewrite <- Hdt. symmetry. exact Hd1.
+      * left. exists m0. split; assumption.
+    + right. exists o'. split; [right; exact Ho'|exact Hdt].
+Qed.
+
+Lemma update_object_properties_dtype_origin props : forall om p m,
+    alookup p (update_object_properties props om) = Some m -> om_dtype m <> None ->
+    exists m0, alookup p om = Some m0 /\ om_dtype m0 = om_dtype m.
+Proof.
+  unfold update_object_properties.
+  induction props as [|[k ps] props IH]; intros om p m Hm Hty.
+  - exists m. split; [exact Hm|reflexivity].
+  - cbn [fold_left fst snd] in Hm. destruct (IH _ p m Hm Hty) as (m0 & Hm0 & Hdt).
+    rewrite alookup_aset in Hm0. destruct (bytes_eqb p k) eqn:E.
+    + apply bytes_eqb_eq in E. subst k. injection Hm0 as <-.
+      cbn [set_props om_dtype] in Hdt. unfold get_ometa in Hdt.
+      destruct (alookup p om) as [m1|].
+      * exists m1. split; [reflexivity|exact Hdt].
+      * cbn [ometa0 om_dtype] in Hdt. rewrite <- Hdt in Hty. contradiction.
+    + exists m0. split; assumption.
+Qed.
+
+Definition om_dtype_has_origin (st : rstate) : Prop :=
+  forall p m, alookup p (rs_om st) = Some m -> om_dtype m <> None ->
+              exists g o, In g (rs_segments st) /\ In o (sg_objs g) /\ so_dtype o = om_dtype m.
+
+Lemma sm_loop_om_dtype_origin : forall segs w pos ps pi st stf,
+    sm_loop segs w pos ps pi st = Ok stf -> om_dtype_has_origin st -> om_dtype_has_origin stf.
+Proof.
+  induction segs as [|s r IH]; intros w pos ps pi st stf H Hinv.
+  - rewrite sm_loop_nil in H. injection H as <-. exact Hinv.
+  - apply sm_loop_cons_inv in H.
+    destruct H as (objs & props & idx & cache & nch & fin & po & om & Hro & Hcc & Hum & Hloop).
+    apply (IH _ _ _ _ _ _ Hloop). intros p m Hm Hty. cbn [rs_om rs_segments] in *.
+    destruct (update_object_properties_dtype_origin props om p m Hm Hty) as (m1 & Hm1 & Hdt1).
+    destruct (update_object_metadata_dtype_origin _ _ _ _ _ _ _ Hum p m1 Hm1)
+      as [(m0 & Hm0 & Hdt0)|(o & Ho & Hdt0)].
+    + destruct (Hinv p m0 Hm0) as (g & o & Hg & Ho & Hdt); [rewrite Hdt0, Hdt1; exact Hty|].
+      exists g, o. split; [apply in_or_app; left; exact Hg|]. split; [exact Ho|]. congruence.
+    + eexists. exists o. split; [apply in_or_app; right; left; reflexivity|].
+      cbn [sg_objs]. split; [exact Ho|]. congruence.
+Qed.
+
+Theorem no_daqmx_channels_ser segs w st h chunkss :
+  sm_run segs w = Ok st ->
+  build_hierarchy (rs_om st) = Ok h ->
+  segs_encode (rs_segments st) segs chunkss ->
+  no_daqmx_channels h.
+Proof.
+  intros Hrun Hh Henc ch Hch Hdt.
+  destruct (build_hierarchy_channels _ _ Hh ch Hch) as (pstr & m & Hin & _ & Heq).
+  assert (Hm : om_dtype m = Some T_DAQMX) by (rewrite <- Hdt, Heq; reflexivity).
+  destruct (sm_run_trace segs w st Hrun) as (_ & _ & Hnd & _).
+  pose proof (alookup_in_nodup pstr m (rs_om st) Hnd Hin) as Hlk.
+  assert (Horigin : om_dtype_has_origin st).
+  { unfold sm_run in Hrun. apply (sm_loop_om_dtype_origin _ _ _ _ _ _ _ Hrun).
+    intros p m0 Hm0. discriminate. }
+  destruct (Horigin pstr m Hlk) as (g & o & Hg & Ho & Hso); [rewrite Hm; discriminate|].
+  destruct (sm_run_dq segs w st Hrun g o Hg Ho) as [H1 H2].
+  apply (segs_encode_no_daqmx _ _ _ Henc). apply H2. apply H1. congruence.
+Qed.
+
+(* R6, final form.  Hypotheses: the file syntax is well formed; the metadata
+   pass and the hierarchy construction succeed on it; every segment's raw data
+   block encodes its chunks; channel paths are canonical; typed objects are
+   channels.  Everything else (positions, chunk counts, channel lengths,
+   distinct channel paths, data paths being typed channels, absence of DAQmx
+   channels) is derived. *)
+Theorem read_correct segs st h chunkss :
+  wf_file segs ->
+  sm_run segs false = Ok st ->
+  build_hierarchy (rs_om st) = Ok h ->
+  segs_encode (rs_segments st) segs chunkss ->
+  om_paths_canonical (rs_om st) ->
+  typed_objects_are_channels (rs_om st) ->
+  rd_all (ser_file segs) = Ok (expected_tokens st h (concat chunkss), true).
+Proof.
+  intros Hwf Hrun Hh Henc Hcanon Hshape.
+  apply read_correct_given_no_daqmx; try assumption.
+  exact (no_daqmx_channels_ser segs false st h chunkss Hrun Hh Henc).
+Qed.
+
+(* the same with the observation spelled out: version of the first segment,
+   hierarchy with each typed channel's data = file-order concatenation of its
+   values over every chunk of every segment, file status of the last segment *)
+Corollary read_correct_tokens segs st h chunkss :
+  wf_file segs ->
+  sm_run segs false = Ok st ->
+  build_hierarchy (rs_om st) = Ok h ->
+  segs_encode (rs_segments st) segs chunkss ->
+  om_paths_canonical (rs_om st) ->
+  typed_objects_are_channels (rs_om st) ->
+  rd_all (ser_file segs) =
+  Ok (TZ (match segs with s :: _ => fs_version s | [] => 0 end) ::
+      obs_hierarchy h (fun c => obs_cdata
+                                  (match ch_dtype c with
+                                   | None => None
+                                   | Some _ => Some (CData (chan_values (ch_path c) (concat chunkss)))
+                                   end))
+      ++ obs_status st, true).
+Proof.
+  intros Hwf Hrun Hh Henc Hcanon Hshape.
+  rewrite (read_correct segs st h chunkss Hwf Hrun Hh Henc Hcanon Hshape).
+  unfold expected_tokens. rewrite (sm_run_version segs false st Hrun). reflexivity.
 Qed.
 
 (* ---- a concrete instance: every hypothesis holds, and the result computes ---- *)
@@ -1269,12 +2119,15 @@ Proof. apply no_daqmx_channels_b_sound. vm_compute. reflexivity. Qed.
 Example rc_canonical : om_paths_canonical (rs_om rc_st).
 Proof. apply om_paths_canonical_b_sound. vm_compute. reflexivity. Qed.
 
+Example rc_typed_channels : typed_objects_are_channels (rs_om rc_st).
+Proof. apply typed_objects_are_channels_b_sound. vm_compute. reflexivity. Qed.
+
 (* the theorem applies ... *)
 Example rc_read_correct :
   rd_all (ser_file rc_file) = Ok (expected_tokens rc_st rc_h (List.concat rc_chunks), true).
 Proof.
   exact (read_correct rc_file rc_st rc_h rc_chunks rc_wf rc_run rc_hier rc_encodes
-                      rc_paths rc_no_daqmx rc_canonical).
+                      rc_canonical rc_typed_channels).
 Qed.
 
 (* ... and both sides compute to the same explicit observation: version, root
